@@ -1,8 +1,104 @@
+import DeapModel.Core.Archive
 import Driver.Proto
-/-! Protocol handler for C08 (stub until the model is built). -/
+/-!
+Protocol handler for C08 (HallOfFame / ParetoFront).
+
+`C08 <hof|pf> <maxsize> <sim> <cmd> …` runs a script on one archive that starts empty and answers
+one token per executed command: the archive state after it, or `raise` (the script stops there).
+
+* individual  `oid:genome:wvalues`   (genome = comma list of ints, wvalues = comma list of rationals, `-` = empty)
+* commands    `u=<ind>;<ind>;…` (update; `u=-` = empty population), `i=<ind>` (insert),
+              `r=<int>` (remove), `c` (clear)
+* similarity  `eq` (equal genomes), `mod<k>` (equal genome sums modulo k), `fit` (equal fitness),
+              `near<d>` (|sum difference| ≤ d; not transitive), `lt` (sum(a) < sum(b); not symmetric),
+              `never`, `always`
+* state       `<item>;…#<key>;…` with item = `genome:wvalues:<f|s>` (`f` = object id allocated by the
+              archive, `s` = id of a submitted object), key = wvalues; empty lists are `-`
+-/
 namespace DriverC08
+open Proto Archive Fitness
+
+abbrev I := Ind (List Int) Rat
+abbrev H := HoF (List Int) Rat
+
+/-- identities of archive copies start here; submitted objects must have smaller ids -/
+def base : Nat := 1000000
+
+def parseInd (s : String) : Option I :=
+  match s.splitOn ":" with
+  | [o, g, w] => do
+      let oid ← parseNat o
+      if oid ≥ base then none
+      let genome ← parseList parseInt g
+      let wv ← parseList parseRat w
+      some ⟨oid, genome, ⟨wv⟩⟩
+  | _ => none
+
+def parseBatch (s : String) : Option (List I) :=
+  if s = "-" then some [] else (s.splitOn ";").mapM parseInd
+
+def gsum (x : I) : Int := x.genome.foldl (· + ·) 0
+
+def parseSim (s : String) : Option (I → I → Bool) :=
+  if s = "eq" then some (fun a b => decide (a.genome = b.genome))
+  else if s = "fit" then some (fun a b => Fitness.eq a.fit b.fit)
+  else if s = "never" then some (fun _ _ => false)
+  else if s = "always" then some (fun _ _ => true)
+  else if s = "lt" then some (fun a b => decide (gsum a < gsum b))
+  else if s.startsWith "mod" then
+    match (s.drop 3).toString.toNat? with
+    | some k => if k = 0 then none else some (fun a b => decide (gsum a % (k : Int) = gsum b % (k : Int)))
+    | none => none
+  else if s.startsWith "near" then
+    match (s.drop 4).toString.toNat? with
+    | some d => some (fun a b => decide ((gsum a - gsum b).natAbs ≤ d))
+    | none => none
+  else none
+
+inductive Cmd where
+  | upd (b : List I)
+  | ins (x : I)
+  | rem (i : Int)
+  | clr
+
+def parseCmd (s : String) : Option Cmd :=
+  if s = "c" then some .clr
+  else if s.startsWith "u=" then (parseBatch (s.drop 2).toString).map .upd
+  else if s.startsWith "i=" then (parseInd (s.drop 2).toString).map .ins
+  else if s.startsWith "r=" then (parseInt (s.drop 2).toString).map .rem
+  else none
+
+def showItem (x : I) : String :=
+  showList toString x.genome ++ ":" ++ showList showRat x.fit.wvalues ++ ":" ++ (if x.oid ≥ base then "f" else "s")
+
+def showState (h : H) : String :=
+  (if h.items.isEmpty then "-" else ";".intercalate (h.items.map showItem)) ++ "#" ++
+  (if h.keys.isEmpty then "-" else ";".intercalate (h.keys.map (fun k => showList showRat k.wvalues)))
+
+def exec (pf : Bool) (sim : I → I → Bool) (h : H) : Cmd → Option H
+  | .upd b => if pf then pfUpdate sim h b else update sim h b
+  | .ins x => some (insert h x)
+  | .rem i => remove h i
+  | .clr => some (clear h)
+
+def runScript (pf : Bool) (sim : I → I → Bool) : H → List Cmd → List String
+  | _, [] => []
+  | h, c :: cs =>
+    match exec pf sim h c with
+    | none => ["raise"]
+    | some h' => showState h' :: runScript pf sim h' cs
 
 def handle : List String → String
+  | kind :: ms :: ss :: cmds =>
+    match (do
+      let pf ← (if kind = "hof" then some false else if kind = "pf" then some true else none)
+      let m ← parseNat ms
+      let sim ← parseSim ss
+      let cs ← cmds.mapM parseCmd
+      if cs.isEmpty then none
+      pure (pf, m, sim, cs)) with
+    | some (pf, m, sim, cs) => " ".intercalate (runScript pf sim (empty m base) cs)
+    | none => "bad-op"
   | _ => "bad-op"
 
 end DriverC08
